@@ -12,6 +12,10 @@ pub fn c01_extra(args: &Args) -> (EvidenceExtra, Vec<(String, String)>) {
     crate::miri::c01_miri(args)
 }
 
+pub fn c17_extra(args: &Args) -> (EvidenceExtra, Vec<(String, String)>) {
+    crate::miri::miri_summary("C17", args)
+}
+
 pub fn c18_extra(args: &Args, prop: &dyn Prop) -> (EvidenceExtra, Vec<(String, String)>) {
     crate::fidelity::c18_fidelity(args, prop)
 }
